@@ -64,6 +64,57 @@ pub fn run(tier: Tier, seed: u64) -> i32 {
         }
     }
     query_engine::verif::set_delays(0, 0);
+    // resize-window scenario (no delays: the window, if any, is between two
+    // atomics of the pool itself) and the sequential boundary model
+    let classify = |v: &str| -> &'static str {
+        if v.starts_with("over-grant") {
+            "over-grant"
+        } else if v.contains("underflow") {
+            "underflow"
+        } else if v.starts_with("quiescent") {
+            "quiescent-mismatch"
+        } else if v.starts_with("after dropping") {
+            "nonzero-after-drop"
+        } else {
+            "accounting"
+        }
+    };
+    let rw_rounds = tier.pick(40u64, 600);
+    let (mut rw_inside, mut rw_resizes) = (0u64, 0u64);
+    for r in 0..rw_rounds {
+        let s = seed.wrapping_mul(7_000_003).wrapping_add(r);
+        let probers = 1 + (s % 5) as usize;
+        let o = wl::run_resize_window(s, probers, 20, 400);
+        rep.eval();
+        inter.insert(o.interleaving_hash);
+        rw_inside += o.samples;
+        rw_resizes += 20 * 400;
+        ops += o.ops;
+        grants += o.grants;
+        denials += o.denials;
+        for v in &o.violations {
+            rep.fail(classify(v), v, json!({"engine": "native", "scenario": "resize-window", "history_seed": s, "probers": probers}));
+        }
+    }
+    rep.set("resize_window", json!({"histories": rw_rounds, "resizes": rw_resizes, "requests_entirely_inside_a_resizing_epoch": rw_inside}));
+    rep.floor(rw_inside > 100, "resize-window scenario: too few requests fell entirely inside a resizing epoch");
+    let b_rounds = tier.pick(3_000u64, 60_000);
+    let (mut b_grants, mut b_denials, mut b_forced) = (0u64, 0u64, 0u64);
+    for r in 0..b_rounds {
+        let s = seed.wrapping_mul(9_000_011).wrapping_add(r);
+        let limit = [usize::MAX, usize::MAX, usize::MAX - 1, usize::MAX / 2, 1000, 0][(s % 6) as usize];
+        let o = wl::run_boundary(s, 30, limit);
+        rep.eval();
+        inter.insert(o.interleaving_hash);
+        b_grants += o.grants;
+        b_denials += o.denials;
+        b_forced += o.forced;
+        ops += o.ops;
+        for v in &o.violations {
+            rep.fail(classify(v), v, json!({"engine": "native", "scenario": "boundary", "history_seed": s, "limit": limit.to_string()}));
+        }
+    }
+    rep.set("boundary_model", json!({"histories": b_rounds, "grants": b_grants, "denials": b_denials, "forced": b_forced}));
     for h in &inter {
         rep.nontrivial(&("native", h));
     }
